@@ -736,8 +736,8 @@ class ComponentBench:
     asserted to exist in the templates (a rename is a machinery failure, not a verdict)."""
 
     IPS, IP_OUT = ["10.0.0.1", "10.0.0.2"], "10.9.9.9"
-    WCS, WC_OUT = ["0.0.0.1"], "0.0.0.255"
-    PORTS, PORT_NAMES, PORT_OUT = [80, 21], ["HTTP", "FTP"], 53
+    WCS, WC_OUT = ["0.0.0.1", "0.0.0.3", "0.0.255.255"], "0.0.0.255"
+    PORTS, PORT_NAMES, PORT_OUT = [80, 21, 22], ["HTTP", "FTP", "SSH"], 53
     PROTOS, PROTO_OUT = ["tcp", "udp"], "icmp"
     NODES = ["network", "nodes"]
 
